@@ -136,6 +136,38 @@ Theorem C11_empty_source_at_once_refuted : forall fuel, empty_wait_loop false fu
 Proof. exact empty_wait_loop_spins. Qed.
 Print Assumptions C11_empty_source_at_once_refuted.
 
+(* A waiting reader with a WHERE / RANGE filter over any number of partitions (model part E: the filter above the mixer
+   above the journal iterators; Release issued by WaitNewData, selector status of a grown chunk): one round after a wake-up
+   returns a matching record iff one is unread, and then exactly one leaves the unread ones (none is lost or returned twice);
+   a wake-up by records the filter rejects consumes them and goes back to a real wait (WaitNewData no longer returns at once),
+   with no matching record unread. *)
+Theorem C11_filtered_round : forall l,
+  match fround code_release_reaches code_status_refreshes l with
+  | (true, l') => unread_matching l = S (unread_matching l')
+  | (false, l') => unread_matching l = 0 /\ unread_matching l' = 0 /\ fwoken l' = false
+  end.
+Proof. exact fround_spec. Qed.
+Print Assumptions C11_filtered_round.
+
+(* a Release that stops at the filter (the mixer's eof flags stay): two partitions at their end, a matching record is appended
+   to one: the reader is woken, the round returns nothing, the state is unchanged -- for every number of rounds (the query spins) *)
+Theorem C11_filtered_release_stops_refuted : exists l, unread_matching l = 1 /\ fwoken l = true /\
+  forall n, frounds false code_status_refreshes n l = (false, l).
+Proof.
+  exists [{| fs_rest := [true]; fs_eof := true; fs_out := false |}; {| fs_rest := []; fs_eof := true; fs_out := false |}].
+  split; [reflexivity|]. split; [reflexivity|]. apply frounds_stuck. reflexivity.
+Qed.
+Print Assumptions C11_filtered_release_stops_refuted.
+
+(* a selector that keeps the cached status "no record of this chunk is in the range" of a chunk that has grown: the first
+   record inside the range appended during the wait is stepped over: the round returns nothing and the record is no longer unread *)
+Theorem C11_filtered_stale_status_refuted : exists l l', unread_matching l = 1 /\
+  fround code_release_reaches false l = (false, l') /\ unread_matching l' = 0.
+Proof.
+  exists [{| fs_rest := [true]; fs_eof := true; fs_out := true |}]. eexists. split; [reflexivity|]. split; reflexivity.
+Qed.
+Print Assumptions C11_filtered_stale_status_refuted.
+
 (* ---- non-vacuity ---- *)
 (* a sleeping waiter is reachable; the race "flush between capture and registration" ends with the reader woken;
    a flush after registration wakes it through the notification; without a flush it stays asleep *)
